@@ -80,6 +80,32 @@ def instances(tier, seed):
                 cfg = Cfg(method, N=N, M=M, intg=intg or 'rk', grid=g, degree=degree, scheme=scheme)
                 add(fam.with_horizon(s, h), cfg)
                 n += 1
+    # seeded random objective term lists over random models (configuration side widened; values stay symbolic)
+    from .. import randspec
+    nrand = 6 if tier == 'quick' else 160
+    rr = random.Random(seed * 7919 + 505)
+    for ri in range(nrand):
+        method, intg = rr.choice([('MS', 'rk'), ('SS', 'rk'), ('DC', None), ('DC', None), ('MS', 'expl_euler'), ('SS', 'expl_euler')])
+        if method == 'DC' and rr.random() < 0.4:
+            s = fam.random_dae(rr)
+        elif method != 'DC' and rr.random() < 0.2:
+            s = fam.random_diffeq(rr)
+            intg = 'rk'
+        else:
+            s = fam.random_ode(rr)
+        N = rr.choice([1, 2, 2, 3, 4])
+        M = rr.choice([1, 1, 2, 3]) if method != 'SS' else rr.choice([1, 2])
+        if method == 'SS':
+            N = min(N, 3)
+        s.objective = randspec.random_objective(rr, s, method)
+        g = rr.choice(grids)
+        if g == 'fun':
+            g = fam.G_FUN(N)
+        h = rr.choice(H)
+        degree, scheme = rr.choice([(2, 'radau'), (1, 'radau'), (3, 'legendre'), (1, 'legendre'), (4, 'radau'), (2, 'legendre'), (3, 'radau')])
+        if method == 'DC' and not fam.rational_tables(degree, scheme) and not fam.horizon_symbolic(h):
+            h = rr.choice(Hsym)
+        add(fam.with_horizon(s, h), Cfg(method, N=N, M=M, intg=intg or 'rk', grid=g, degree=degree, scheme=scheme), soft=True, family='random')
     # several controls / several integral terms of the same shape (symbols created by ocp.control() all carry the same name)
     for mi, (method, intg) in enumerate((('MS', 'rk'), ('SS', 'expl_euler'), ('DC', None))):
         s = Spec(nx=2, nu=2, ode=[nl1(X(1)) * U(0) + t * X(0), X(0) - U(1) * X(1)], note='two controls, separate integral terms')
@@ -131,11 +157,15 @@ def run(item):
         def refobj2(tr):
             tr.spec = s2
             return Ref(tr).objective()
-        ok = ch2.prove('twin', fi, multi(inst, refobj2))
-        if ok:
-            twins_bad += 1
+        lastf = [Ref(inst.traj(d)).top(spec.objective[-1]) for d in doms if d != 'z']
+        if all(abs(float(v)) < 1e-12 for v in lastf):
+            pass        # the dropped term vanishes identically (e.g. t0 = 0): nothing to tell apart
         else:
-            twins_ok += 1
+            ok = ch2.prove('twin', fi, multi(inst, refobj2))
+            if ok:
+                twins_bad += 1
+            else:
+                twins_ok += 1
     r = result(inst, ch, {'violations': viol, 'twins_ok': twins_ok, 'twins_bad': twins_bad,
                           'shape': '%s|%s|%s' % (cfg.tag(), spec.t0[0] + '/' + spec.T[0], repr(spec.objective)),
                           'sample': {'cfg': cfg.tag(), 'horizon': [spec.t0[0], spec.T[0]], 'objective': repr(spec.objective),
